@@ -54,7 +54,7 @@ def mutate(rng, args, kwargs, fn=None, slot=None):
             kwargs[key] = v
     if isinstance(cur, dict) and "arr" in cur:
         sh = cur["shape"]
-        m = rng.choice(["zero", "zero", "0d", "ndim-", "ndim+", "dtype", "shape", "none", "list", "object", "str", "one",
+        m = rng.choice(["zero", "zero", "0d", "ndim-", "ndim+", "ndim+3", "ndim+3", "dtype", "shape", "none", "list", "object", "str", "one",
                         "values", "values", "shape-"])
         if m == "zero":
             z = list(sh)
@@ -66,6 +66,13 @@ def mutate(rng, args, kwargs, fn=None, slot=None):
             put(R.A(cur["arr"], sh[:-1] or [1], cur["vals"][:max(1, int(np.prod(sh[:-1] or [1])))]) if len(sh) > 1 else {"special": "scalar0d", "dtype": cur["arr"]})
         elif m == "ndim+":
             put(R.A(cur["arr"], [1] + sh, cur["vals"]))
+        elif m == "ndim+3":
+            # one axis more, of length 3, in the dtype of the FIRST array argument (a wrapper that only converts "foreign" arrays
+            # must still check the rank of one that needs no conversion)
+            first = next((x for x in args if isinstance(x, dict) and "arr" in x), cur)
+            dt = first["arr"]
+            vals = [(abs(int(v)) % 2 if dt == "bool" else (abs(int(v)) % 100 if not dt.startswith("float") else float(v))) for v in cur["vals"]] * 3
+            put(R.A(dt, [3] + sh, vals))
         elif m == "dtype":
             dt = rng.choice(BADT)
             vals = [abs(int(v)) % 2 if dt == "bool" else (abs(v) if dt.startswith("u") else (int(v) % 128 if dt == "int8" else v))
